@@ -209,12 +209,25 @@ def handle_rbracket(state, token):
         yield _new_token("ERRORTOKEN", e, token.start)
 
 
+_ERROR_SPACES = (" ", "\t", "\f")
+
+
 def handle_error_space(state, token):
     """
     Function for handling special whitespace characters in subprocess mode
     """
     if not state["pymode"][-1][0]:
+        prev = state["last"]
         state["last"] = token
+        if (
+            prev is not None
+            and getattr(prev, "type", None) == ERRORTOKEN
+            and prev.string in _ERROR_SPACES
+            and prev.end == token.start
+        ):
+            # the tokenizer hands over such a run one character at a time;
+            # the run has already produced its WS token
+            return
         yield _new_token("WS", token.string, token.start)
     else:
         yield from []
@@ -340,6 +353,8 @@ def special_handlers():
         (OP, "&&"): handle_double_amps,
         (OP, "||"): handle_double_pipe,
         (ERRORTOKEN, " "): handle_error_space,
+        (ERRORTOKEN, "\t"): handle_error_space,
+        (ERRORTOKEN, "\f"): handle_error_space,
         (ERRORTOKEN, "\\\n"): handle_error_linecont,
         (ERRORTOKEN, "\\\r\n"): handle_error_linecont,
     }
